@@ -317,6 +317,19 @@ def rule_widths(P, rep, fields, rule="X5"):
     rep.need(n >= 1, "none of the counter fields %s exists" % (fields,))
 
 
+X6_DOC = ("ABTI_waitlist_init (which also rewinds the futex generation word) is called only while an object is being created or "
+          "initialised, never on a live object (a sleeping external-thread waiter compares the word with the value it saw)")
+
+
+def rule_X6(P, rep):
+    callers = sorted(x.split(":")[-1] for x in P.callers().get("src/include/abti_waitlist.h:ABTI_waitlist_init", []))
+    rep.need(len(callers) >= 4, "ABTI_waitlist_init has only %d callers" % len(callers))
+    for c in callers:
+        ok = bool(re.search(r"(_create(_|$)|_init$|_init_|_reinit$)", c)) and not re.search(r"reset|set$", c)
+        rep.ob("X6", "%s (a creation / initialisation routine) initialises a wait list" % c, ok,
+               "%s re-initialises the wait list of a live object" % c, loc="src", site="waitlist_init/" + c)
+
+
 def borrow(rep, P, rule_fn, label, only=None, **kw):
     """Evaluate a sibling property's rule and record its obligations under this property's `label`
     (properties overlap: the same structural clause can be a necessary condition of several)."""
